@@ -142,7 +142,7 @@ def regenerate():
     rc, out = sh(f"{PY} {VERIF}/translator/gen.py {COQ}/gen", timeout=600,
                  env={"PYDREX_REPO": REPO, "NUMBA_DISABLE_JIT": "1"})
     if rc != 0:
-        return out[-4000:]
+        return out[-6000:]
     return None
 
 
@@ -161,10 +161,8 @@ def build(targets=None, jobs=16) -> BuildResult:
     br = BuildResult()
     with Lock():
         br.gen_error = regenerate()
-        if not os.path.exists(os.path.join(COQ, "Makefile")) or (
-            os.path.getmtime(os.path.join(COQ, "Makefile"))
-            < os.path.getmtime(os.path.join(COQ, "_CoqProject"))
-        ):
+        sh(f"{VERIF}/mkproject.sh")
+        if not os.path.exists(os.path.join(COQ, "Makefile")):
             sh("coq_makefile -f _CoqProject -o Makefile", cwd=COQ)
         files = coq_files()
         want = files if targets is None else targets
@@ -187,29 +185,37 @@ def build(targets=None, jobs=16) -> BuildResult:
         for m in re.finditer(r"COQC (\S+)\n((?:(?!COQC).*\n)*)", out + "\n"):
             pass
         br.lint = lint_development()
-        # extraction + driver
-        if "Extract.v" in br.built_vo or os.path.exists(os.path.join(COQ, "model.ml")):
-            os.makedirs(EXTRACT, exist_ok=True)
-            src_ml = os.path.join(COQ, "model.ml")
-            stamp = os.path.join(EXTRACT, ".stamp")
-            key = hashlib.sha256(
-                b"".join(open(p, "rb").read() for p in
-                         [src_ml, os.path.join(COQ, "model.mli"),
-                          os.path.join(VERIF, "ocaml", "driver.ml"),
-                          os.path.join(VERIF, "ocaml", "dispatch.ml")])).hexdigest()
-            if not (os.path.exists(stamp) and open(stamp).read() == key
-                    and os.path.exists(os.path.join(EXTRACT, "driver"))):
-                sh(f"cp {COQ}/model.ml {COQ}/model.mli {VERIF}/ocaml/driver.ml {VERIF}/ocaml/dispatch.ml {EXTRACT}/")
-                rc2, out2 = sh("ocamlfind ocamlopt -O2 -w -a model.mli model.ml dispatch.ml driver.ml -o driver",
-                               cwd=EXTRACT, timeout=600)
-                if rc2 != 0:
-                    br.driver_error = out2[-2000:]
-                else:
-                    open(stamp, "w").write(key)
-            br.driver_ok = br.driver_error is None and os.path.exists(os.path.join(EXTRACT, "driver"))
-        else:
-            br.driver_error = "Extract.vo was not built"
+        # extraction + drivers, one per group  (coq/Extract_<g>.v -> coq/model_<g>.ml)
+        br.drivers = {}
+        for ex in sorted(glob.glob(os.path.join(COQ, "Extract_*.v"))):
+            g = os.path.basename(ex)[len("Extract_"):-2]
+            br.drivers[g] = _build_driver(g, os.path.basename(ex) in br.built_vo)
+        br.driver_ok = all(v is None for v in br.drivers.values())
+        br.driver_error = {g: v for g, v in br.drivers.items() if v is not None} or None
     return br
+
+
+def _build_driver(g, vo_built):
+    """returns None when build/extract/<g>/driver is up to date, else an error text"""
+    d = os.path.join(EXTRACT, g)
+    src_ml = os.path.join(COQ, f"model_{g}.ml")
+    disp = os.path.join(VERIF, "ocaml", f"dispatch_{g}.ml")
+    if not vo_built:
+        return f"Extract_{g}.vo was not built"
+    if not (os.path.exists(src_ml) and os.path.exists(disp)):
+        return f"model_{g}.ml or ocaml/dispatch_{g}.ml missing"
+    os.makedirs(d, exist_ok=True)
+    srcs = [src_ml, os.path.join(COQ, f"model_{g}.mli"), os.path.join(VERIF, "ocaml", "driver.ml"), disp]
+    key = hashlib.sha256(b"".join(open(p, "rb").read() for p in srcs)).hexdigest()
+    stamp = os.path.join(d, ".stamp")
+    if os.path.exists(stamp) and open(stamp).read() == key and os.path.exists(os.path.join(d, "driver")):
+        return None
+    sh(f"cp {src_ml} {d}/model.ml && cp {COQ}/model_{g}.mli {d}/model.mli && cp {VERIF}/ocaml/driver.ml {d}/driver.ml && cp {disp} {d}/dispatch.ml")
+    rc2, out2 = sh("ocamlfind ocamlopt -O2 -w -a model.mli model.ml dispatch.ml driver.ml -o driver", cwd=d, timeout=900)
+    if rc2 != 0:
+        return out2[-2000:]
+    open(stamp, "w").write(key)
+    return None
 
 
 def _fresh(f):
@@ -234,9 +240,9 @@ def count_statements(vfile):
 # --------------------------------------------------------------------------
 # model runner (extracted OCaml driver)
 # --------------------------------------------------------------------------
-def run_model(lines):
+def run_model(lines, group="core"):
     """lines: list of 'entry ints | hexfloats' -> list of ('OK',[floats]) | ('ERR',name)"""
-    p = subprocess.run([os.path.join(EXTRACT, "driver")], input="\n".join(lines) + "\n",
+    p = subprocess.run([os.path.join(EXTRACT, group, "driver")], input="\n".join(lines) + "\n",
                        stdout=subprocess.PIPE, stderr=subprocess.PIPE, text=True, timeout=3600)
     if p.returncode != 0:
         raise RuntimeError("model driver failed: " + p.stderr[-2000:])
